@@ -1404,6 +1404,7 @@ func (e *ordEngine) paramOnlyRanged(cf *core.FuncInfo, idx int, depth int) bool 
 	pm := e.c.parents(cf)
 	f := &ordFn{e: e, fi: cf, info: info, taintAt: map[types.Object][]token.Pos{}, cleanAt: map[types.Object][]token.Pos{}, ordinal: map[string]int{}}
 	ok := true
+	checkedLoops := map[*ast.ForStmt]bool{}
 	ast.Inspect(cf.Decl.Body, func(n ast.Node) bool {
 		id, isID := n.(*ast.Ident)
 		if !isID || info.Uses[id] != types.Object(po) {
@@ -1432,6 +1433,24 @@ func (e *ordEngine) paramOnlyRanged(cf *core.FuncInfo, idx int, depth int) bool 
 			}
 			if len(f.bodyProblems(x.Body, key, val)) > 0 {
 				ok = false
+			}
+		case *ast.IndexExpr:
+			// for i := 0; i < len(p); i++ { … p[i] … }: the index form of the same loop
+			if x.X != ast.Expr(id) {
+				ok = false
+				return true
+			}
+			loop, _ := pm.Enclosing(x, func(n ast.Node) bool { _, isFor := n.(*ast.ForStmt); return isFor }).(*ast.ForStmt)
+			io := core.ObjOf(info, x.Index)
+			if loop == nil || io == nil || !isIndexLoopOver(info, loop, io, po) {
+				ok = false
+				return true
+			}
+			if !checkedLoops[loop] {
+				checkedLoops[loop] = true
+				if len(f.bodyProblems(loop.Body, io, nil)) > 0 {
+					ok = false
+				}
 			}
 		case *ast.CallExpr:
 			if isBuiltin(info, x, "len") {
@@ -1513,4 +1532,25 @@ func (f *ordFn) mentionsLoopVar(e ast.Expr, key, val types.Object) bool {
 		return !hit
 	})
 	return hit
+}
+
+// isIndexLoopOver: `for i := 0; i < len(s); i++` with i the given variable and s the given slice.
+func isIndexLoopOver(info *types.Info, loop *ast.ForStmt, i types.Object, s types.Object) bool {
+	init, ok := loop.Init.(*ast.AssignStmt)
+	if !ok || len(init.Lhs) != 1 || len(init.Rhs) != 1 || core.ObjOf(info, init.Lhs[0]) != i {
+		return false
+	}
+	if tv, isC := info.Types[init.Rhs[0]]; !isC || tv.Value == nil || tv.Value.String() != "0" {
+		return false
+	}
+	cond, ok := core.Unparen(loop.Cond).(*ast.BinaryExpr)
+	if !ok || cond.Op != token.LSS || core.ObjOf(info, cond.X) != i {
+		return false
+	}
+	lc, ok := core.Unparen(cond.Y).(*ast.CallExpr)
+	if !ok || !isBuiltin(info, lc, "len") || len(lc.Args) != 1 || core.ObjOf(info, lc.Args[0]) != s {
+		return false
+	}
+	post, ok := loop.Post.(*ast.IncDecStmt)
+	return ok && post.Tok == token.INC && core.ObjOf(info, post.X) == i
 }
